@@ -493,6 +493,9 @@ class BuiltinMixin:
                 if extra and extra.get("symbolic"):
                     yield from self.sym_container_copy(st, a)
                     return
+            elif isinstance(a, Opaque) and a.typ in self.opaque_handlers and a.typ in getattr(self, "opaque_as_dict", ()):
+                yield from self.opaque_call(st, a, "__as_dict__", [], {})      # dict(x) of a mapping-like collaborator
+                return
             else:
                 pairs = self.iter_items(st, a)
                 if pairs is None:
